@@ -20,6 +20,18 @@ Theorem C08_str_zero_max_len_refuted :
 Proof. exact str_zero_max_len_refuted. Qed.
 Print Assumptions C08_str_zero_max_len_refuted.
 
+(* Required(bool) accepts 'x' (any value: validate is bool(val)) *)
+Theorem C08_bool_any_type_refuted : bool_accepts_any_type = true ->
+  exists t r, tag_in t (type_allowed CBool) = false /\ type_dispatch CBool t = TyAccept r.
+Proof. exact bool_any_type_refuted. Qed.
+Print Assumptions C08_bool_any_type_refuted.
+
+(* Optional(Decimal, 5, 2) accepts 123456.789: validate never looks at precision / scale *)
+Theorem C08_decimal_precision_refuted :
+  dec_exceeds_precision 5 2 (NFin 123456789 1000) /\ dec_validate None None (NFin 123456789 1000) = Ok (NFin 123456789 1000).
+Proof. exact dec_precision_not_enforced. Qed.
+Print Assumptions C08_decimal_precision_refuted.
+
 (* the flags as computed on this run (the check copies them into the evidence file and compares them with /repo) *)
-Definition C08_flags : bool * bool * bool * bool :=
-  Eval vm_compute in (int_zero_bound_ignored, real_zero_bound_ignored, real_nan_accepted, str_zero_max_len_ignored).
+Definition C08_flags : bool * bool * bool * bool * bool :=
+  Eval vm_compute in (int_zero_bound_ignored, real_zero_bound_ignored, real_nan_accepted, str_zero_max_len_ignored, bool_accepts_any_type).
